@@ -7,10 +7,12 @@ import (
 	"errors"
 	"fmt"
 	"net"
+	"os"
 	"strings"
 	"sync"
 	"testing"
 	"testing/synctest"
+	"time"
 
 	"github.com/creachadair/jrpc2"
 	"github.com/creachadair/jrpc2/channel"
@@ -31,6 +33,7 @@ type Step struct {
 	Gate       bool   `json:"gate,omitempty"`         // call: parking handler
 	Err        string `json:"err,omitempty"`          // acceptfail: netclosed chanclosed other
 	Burst      bool   `json:"burst,omitempty"`
+	D          int    `json:"d,omitempty"` // cancel: fake nanoseconds to wait first (lands between two hook sites of a starting connection)
 }
 
 func (s Step) String() string {
@@ -50,12 +53,17 @@ func (s Step) String() string {
 	case "acceptfail":
 		return fmt.Sprintf("%sacceptfail %s", b, s.Err)
 	}
+	if s.Op == "cancel" && s.D > 0 {
+		return fmt.Sprintf("%scancel after %dns", b, s.D)
+	}
 	return b + s.Op
 }
 
 // Scenario for Loop.
 type Scenario struct {
-	Salt    uint64    `json:"salt,omitempty"`
+	Net       bool      `json:"net,omitempty"`        // Loop over server.NetAccepter(in-memory net.Listener, channel.Line) instead of the in-memory Accepter
+	PreCancel bool      `json:"pre_cancel,omitempty"` // the context has ended before Loop is called
+	Salt      uint64    `json:"salt,omitempty"`
 	Pins    []sim.Pin `json:"pins,omitempty"`
 	NoHooks bool      `json:"no_hooks,omitempty"`
 	Steps   []Step    `json:"steps"`
@@ -179,7 +187,65 @@ func (a *accepter) Accept(ctx context.Context) (channel.Channel, error) {
 	}
 }
 
+// memListener is a net.Listener fed by the script.
+type memListener struct {
+	conns  chan net.Conn
+	fail   chan error
+	closed chan struct{}
+	once   sync.Once
+	mu     sync.Mutex
+	closes int
+}
+
+func (l *memListener) Accept() (net.Conn, error) {
+	select {
+	case <-l.closed:
+		return nil, &net.OpError{Op: "accept", Net: "mem", Err: net.ErrClosed}
+	default:
+	}
+	select {
+	case c := <-l.conns:
+		return c, nil
+	case err := <-l.fail:
+		return nil, err
+	case <-l.closed:
+		return nil, &net.OpError{Op: "accept", Net: "mem", Err: net.ErrClosed}
+	}
+}
+
+func (l *memListener) Close() error {
+	l.mu.Lock()
+	l.closes++
+	l.mu.Unlock()
+	err := error(&net.OpError{Op: "close", Net: "mem", Err: net.ErrClosed})
+	l.once.Do(func() { close(l.closed); err = nil })
+	return err
+}
+
+func (l *memListener) Addr() net.Addr { return memAddr{} }
+
+type memAddr struct{}
+
+func (memAddr) Network() string { return "mem" }
+func (memAddr) String() string  { return "mem" }
+
+// countConn counts Close calls on the server side of a net.Pipe.
+type countConn struct {
+	net.Conn
+	mu     sync.Mutex
+	closes int
+}
+
+func (c *countConn) Close() error {
+	c.mu.Lock()
+	c.closes++
+	c.mu.Unlock()
+	return c.Conn.Close()
+}
+
 type conn struct {
+	sendQ       chan []byte // records for the peer's single writer goroutine
+	netSide     *countConn
 	id          int
 	peer        channel.Channel
 	srvSide     *sim.Chan
@@ -199,6 +265,7 @@ func run(t *testing.T, sc Scenario) engine.Verdict {
 	bubbleErr := ""
 	conns := map[int]*conn{}
 	var order []*conn
+	var listener *memListener
 	func() {
 		defer func() {
 			if p := recover(); p != nil {
@@ -208,8 +275,18 @@ func run(t *testing.T, sc Scenario) engine.Verdict {
 		synctest.Test(t, func(t *testing.T) {
 			w.drain = make(chan struct{}) // channels must belong to the bubble
 			acc := &accepter{conns: make(chan channel.Channel), fail: make(chan error)}
+			lst := &memListener{conns: make(chan net.Conn), fail: make(chan error), closed: make(chan struct{})}
+			listener = lst
+			var theAccepter server.Accepter = acc
+			if sc.Net {
+				theAccepter = server.NetAccepter(lst, channel.Line)
+			}
 			ctx, cancel := context.WithCancel(context.Background())
 			defer cancel()
+			if sc.PreCancel {
+				w.log(event{kind: "cancel"})
+				cancel()
+			}
 			var smu sync.Mutex
 			pendingFail := map[int]bool{}
 			nextSvc := 0
@@ -227,7 +304,7 @@ func run(t *testing.T, sc Scenario) engine.Verdict {
 			}
 			loopDone := make(chan struct{})
 			go func() {
-				err := server.Loop(ctx, acc, newService, nil)
+				err := server.Loop(ctx, theAccepter, newService, nil)
 				e := event{kind: "loopret"}
 				switch {
 				case err == nil:
@@ -259,7 +336,11 @@ func run(t *testing.T, sc Scenario) engine.Verdict {
 					close(c.cancelOffer)
 					w.log(event{kind: "not-accepted", k: c.id})
 					c.once.Do(func() { c.peer.Close() })
-					c.srvSide.Close()
+					if c.netSide != nil {
+						c.netSide.Conn.Close()
+					} else {
+						c.srvSide.Close()
+					}
 				}
 			}
 			for i, st := range sc.Steps {
@@ -268,14 +349,29 @@ func run(t *testing.T, sc Scenario) engine.Verdict {
 				w.mu.Unlock()
 				switch st.Op {
 				case "connect":
-					cpipe, spipe := channel.Direct()
-					c := &conn{id: st.K, peer: cpipe, fail: st.Fail}
-					var faults []sim.Fault
-					if st.RecvFailAt > 0 {
-						faults = []sim.Fault{{Op: "recv", At: st.RecvFailAt, Kind: "err"}}
-						c.faultAt = st.RecvFailAt
+					var cpipe, spipe channel.Channel
+					c := &conn{id: st.K, fail: st.Fail}
+					if sc.Net {
+						a, b := net.Pipe()
+						cpipe = channel.Line(a, a)
+						c.netSide = &countConn{Conn: b}
+					} else {
+						cpipe, spipe = channel.Direct()
+						var faults []sim.Fault
+						if st.RecvFailAt > 0 {
+							faults = []sim.Fault{{Op: "recv", At: st.RecvFailAt, Kind: "err"}}
+							c.faultAt = st.RecvFailAt
+						}
+						c.srvSide = sim.Wrap(fmt.Sprintf("conn%d", st.K), &closeOnce{Channel: spipe}, 0, faults)
 					}
-					c.srvSide = sim.Wrap(fmt.Sprintf("conn%d", st.K), &closeOnce{Channel: spipe}, 0, faults)
+					c.peer = cpipe
+					c.sendQ = make(chan []byte, 64)
+					go func() {
+						// one writer per connection, as the channel contract demands
+						for rec := range c.sendQ {
+							cpipe.Send(rec)
+						}
+					}()
 					conns[st.K] = c
 					order = append(order, c)
 					// peer reader: drains replies, closes its end after EOF
@@ -297,6 +393,14 @@ func run(t *testing.T, sc Scenario) engine.Verdict {
 					c.offer = make(chan struct{})
 					c.cancelOffer = make(chan struct{})
 					go func() {
+						if sc.Net {
+							select {
+							case lst.conns <- c.netSide:
+								close(c.offer)
+							case <-c.cancelOffer:
+							}
+							return
+						}
 						select {
 						case acc.conns <- c.srvSide:
 							close(c.offer)
@@ -317,7 +421,10 @@ func run(t *testing.T, sc Scenario) engine.Verdict {
 							method = "gate"
 						}
 						rec := fmt.Sprintf(`{"jsonrpc":"2.0","id":%d,"method":%q,"params":{"N":%d}}`, st.N, method, st.N)
-						go func() { c.peer.Send([]byte(rec)) }()
+						select {
+						case c.sendQ <- []byte(rec):
+						default:
+						}
 					}
 				case "release":
 					select {
@@ -330,8 +437,16 @@ func run(t *testing.T, sc Scenario) engine.Verdict {
 						go c.once.Do(func() { c.peer.Close() })
 					}
 				case "cancel":
-					w.log(event{kind: "cancel"})
-					cancel()
+					if st.D > 0 {
+						go func() {
+							sched.Sleep(time.Duration(st.D))
+							w.log(event{kind: "cancel"})
+							cancel()
+						}()
+					} else {
+						w.log(event{kind: "cancel"})
+						cancel()
+					}
 				case "acceptfail":
 					var err error
 					switch st.Err {
@@ -343,9 +458,17 @@ func run(t *testing.T, sc Scenario) engine.Verdict {
 						err = errOther
 					}
 					w.log(event{kind: "acceptfail", flag: st.Err})
+					if sc.Net && st.Err == "netclosed" {
+						go lst.Close() // somebody else closes the listener
+						break
+					}
 					go func() {
+						fc := acc.fail
+						if sc.Net {
+							fc = lst.fail
+						}
 						select {
-						case acc.fail <- err:
+						case fc <- err:
 						case <-loopDone:
 						}
 					}()
@@ -367,6 +490,7 @@ func run(t *testing.T, sc Scenario) engine.Verdict {
 			settle()
 			for _, c := range order {
 				c.once.Do(func() { c.peer.Close() })
+				close(c.sendQ)
 			}
 			settle()
 			select {
@@ -440,7 +564,14 @@ func run(t *testing.T, sc Scenario) engine.Verdict {
 		}
 		sid := svcOf[cid]
 		fs := finishes[sid]
-		_, _, closes := c.srvSide.Counts()
+		closes := 0
+		if c.netSide != nil {
+			c.netSide.mu.Lock()
+			closes = c.netSide.closes
+			c.netSide.mu.Unlock()
+		} else {
+			_, _, closes = c.srvSide.Counts()
+		}
 		if c.fail {
 			if len(fs) != 0 {
 				return fail("finish-for-failed-assigner", "service %d (connection #%d) failed to provide an assigner but Finish was called %d times", sid, cid, len(fs))
@@ -486,7 +617,7 @@ func run(t *testing.T, sc Scenario) engine.Verdict {
 			if f.flag != "closed" || f.err != "" {
 				return fail("finish-status", "connection #%d was closed by its client first, but its service saw status flags=%q err=%q", cid, f.flag, f.err)
 			}
-		case cancelSeq >= 0 && (!closedByClient || cancelSeq < cs) && !racing(sc, evs, cs, cancelSeq):
+		case cancelSeq >= 0 && (!closedByClient || (cancelSeq < cs && !racing(sc, evs, cs, cancelSeq))):
 			if f.flag != "stopped" || f.err != "" {
 				return fail("finish-status", "the context ended while connection #%d was open, but its service saw status flags=%q err=%q", cid, f.flag, f.err)
 			}
@@ -555,7 +686,19 @@ func run(t *testing.T, sc Scenario) engine.Verdict {
 			raced = true
 		}
 	}
-	v := engine.Verdict{NonTrivial: alive >= 2 || nfail > 0 || raced}
+	if os.Getenv("VERIF_DEBUG") != "" {
+		fmt.Printf("script:\n%s\nhistory:\n%s\n", script(sc), history(w))
+	}
+	v := engine.Verdict{NonTrivial: alive >= 2 || nfail > 0 || raced || sc.PreCancel}
+	if sc.Net {
+		listener.mu.Lock()
+		lc := listener.closes
+		listener.mu.Unlock()
+		v.Labels = append(v.Labels, "net-accepter", fmt.Sprintf("listener-closes:%d", min(lc, 3)))
+		if sc.PreCancel {
+			v.Labels = append(v.Labels, "context-ended-before-loop")
+		}
+	}
 	if nfail > 0 {
 		v.Labels = append(v.Labels, "assigner-fails")
 	}
@@ -618,19 +761,29 @@ func history(w *lworld) string {
 	return sb.String()
 }
 
-func genScenario(t *rapid.T) Scenario {
-	sc := Scenario{Salt: rapid.Uint64().Draw(t, "salt")}
+func genNet(t *rapid.T) Scenario {
+	sc := genScenarioMode(t, true)
+	return sc
+}
+
+func genScenario(t *rapid.T) Scenario { return genScenarioMode(t, false) }
+
+func genScenarioMode(t *rapid.T, netMode bool) Scenario {
+	sc := Scenario{Salt: rapid.Uint64().Draw(t, "salt"), Net: netMode}
+	if netMode && rapid.IntRange(0, 7).Draw(t, "precancel") == 0 {
+		sc.PreCancel = true
+	}
 	if rapid.IntRange(0, 9).Draw(t, "nohooks") == 0 {
 		sc.NoHooks = true
 	}
 	if rapid.IntRange(0, 2).Draw(t, "pins") == 0 {
-		sc.Pins = append(sc.Pins, sim.Pin{Site: rapid.SampledFrom([]string{"loop.conn", "loop.finish", "srv.stop.lock", "srv.read.recv", "srv.deliver.lock"}).Draw(t, "site"), Delay: rapid.SampledFrom([]int{1, 50, 9000, 200000}).Draw(t, "delay")})
+		sc.Pins = append(sc.Pins, sim.Pin{Site: rapid.SampledFrom([]string{"loop.conn", "loop.accept", "loop.finish", "srv.stop.lock", "srv.start.lock", "srv.read.recv", "srv.deliver.lock"}).Draw(t, "site"), Delay: rapid.SampledFrom([]int{1, 50, 9000, 200000}).Draw(t, "delay")})
 	}
 	n := rapid.IntRange(2, 16).Draw(t, "nsteps")
 	nconn, nonce := 0, 0
 	var open []int
 	var parked []int
-	ended := false
+	ended := sc.PreCancel
 	pendingConnect := false
 	for i := 0; i < n; i++ {
 		var st Step
@@ -639,7 +792,7 @@ func genScenario(t *rapid.T) Scenario {
 		case (roll < 30 || nconn == 0) && !pendingConnect:
 			nconn++
 			st = Step{Op: "connect", K: nconn, Fail: rapid.IntRange(0, 5).Draw(t, "assignerfails") == 0}
-			if !st.Fail && rapid.IntRange(0, 7).Draw(t, "recvfault") == 0 {
+			if !st.Fail && !netMode && rapid.IntRange(0, 7).Draw(t, "recvfault") == 0 {
 				st.RecvFailAt = rapid.IntRange(1, 2).Draw(t, "failat")
 			}
 			if !st.Fail && st.RecvFailAt != 1 {
@@ -661,7 +814,7 @@ func genScenario(t *rapid.T) Scenario {
 			open = append(open[:j:j], open[j+1:]...)
 		case roll < 91 && !ended:
 			ended = true
-			st = Step{Op: "cancel"}
+			st = Step{Op: "cancel", D: rapid.SampledFrom([]int{0, 0, 0, 1, 40, 700, 3000, 6000, 12000}).Draw(t, "canceldelay")}
 		case roll < 97 && !ended:
 			ended = true
 			st = Step{Op: "acceptfail", Err: rapid.SampledFrom([]string{"netclosed", "chanclosed", "other", "other"}).Draw(t, "errkind")}
@@ -687,6 +840,11 @@ func genScenario(t *rapid.T) Scenario {
 var parts = []engine.AnyPart{
 	engine.Part[Scenario]{Name: "scenarios", Run: run, Gen: genScenario,
 		Rule: "server.Loop in a bubble with an in-memory Accepter fed by the script: connect (one end of channel.Direct behind the counting wrapper; one service in six fails in Assigner), calls with parking handlers, releases, client closes, context cancel, accepter failure with a wrapped net.ErrClosed / channel.ErrClosed / other error, bursts racing them, hook delays on loop.* and srv.* sites; oracle = one newService per accepted connection, exactly one Finish per service whose Assigner succeeded (its own assigner, status Closed after client close / Stopped after context end, after the server's last handler returned), none plus a closed connection for a failing Assigner, Loop returns after the last Finish with nil for closed-listener errors and the accepter's error otherwise, handlers see cancelled contexts after the context ended, no goroutine left; non-trivial = at least two connections alive, or a failing Assigner, or the end racing in a burst; distinct = hash of the scenario"},
+}
+
+func init() {
+	parts = append(parts, engine.Part[Scenario]{Name: "netaccepter", Run: run, Gen: genNet,
+		Rule: "the same scripts and oracle with Loop running over server.NetAccepter(in-memory net.Listener, channel.Line) and net.Pipe connections: the context ends before Loop is called, while Loop is parked in Accept, or (hook site loop.accept, delayed cancel steps) between two Accept calls; the listener is closed by somebody else or fails with another error; Loop must return nil whenever the accepter's failure is the closed listener that the end of the context produces; non-trivial = as scenarios, or the context had ended before Loop was called; distinct = hash of the scenario"})
 }
 
 func TestProp(t *testing.T)   { engine.RunParts(t, "C20", parts) }
